@@ -9,6 +9,7 @@
 -/
 import LispModel.Read
 import LispModel.Proofs.Reader
+import LispModel.Proofs.SeedLaws
 namespace LispModel.Props.C16
 open LispModel LispModel.Read LispModel.Scan
 
@@ -68,5 +69,30 @@ theorem readStr_leftover_is_trailing (cfg : Cfg) (bytes : List UInt8) (toks : Li
 theorem multiLine_iff_eof_class (e : RErr) :
     multiLine e = true ↔ (e = .eof ")" ∨ e = .eof "]" ∨ e = .eof "}" ∨ e = .eof "»" ∨ e = .rawEof ∨ e = .eof "¬") :=
   Proofs.Reader.multiLine_iff_eof_class e
+
+/-! ## laws added after the seeded changes of rounds 3–5 -/
+open LispModel.Proofs.SeedLaws (rejectedWith)
+
+/-- a reader macro (`'`, `` ` ``, `~`, `~@`, `@`) directly in front of a closing bracket: the closer is
+    reported as unexpected (never "got EOF"), whatever follows and however deep the macro sits -/
+theorem reader_macro_before_closer (cfg : Cfg) (f : Nat) (q c : Token) (rest : List Token)
+    {name : String} (hq : readerMacros.lookup (tokStr q) = some name)
+    (hc : tokStr c = ")" ∨ tokStr c = "]" ∨ tokStr c = "}") :
+    readForm (f+2) cfg (q :: c :: rest) = .error (.unexpected (tokStr c)) ∧
+    multiLine (.unexpected (tokStr c)) = false :=
+  Proofs.SeedLaws.C16.reader_macro_before_closer cfg f q c rest hq hc
+
+/-- `')`, `(a ')`, `` [1 `] `` are rejected as malformed ("unexpected closer"), not as incomplete -/
+theorem quote_before_closer_examples :
+    (rejectedWith (bytes% "')") (.unexpected ")") && rejectedWith (bytes% "(a ')") (.unexpected ")") &&
+     rejectedWith (bytes% "[1 `]") (.unexpected "]") &&
+     !multiLine (.unexpected ")") && !multiLine (.unexpected "]")) = true :=
+  Proofs.SeedLaws.C16.quote_before_closer_examples
+
+/-- `(a) (b`: rejected with the trailing class, not the eof class -/
+theorem second_open_form_is_trailing :
+    (rejectedWith (bytes% "(a) (b") .trailing && !multiLine .trailing &&
+     rejectedWith (bytes% "(b") (.eof ")") && multiLine (.eof ")")) = true :=
+  Proofs.SeedLaws.C16.second_open_form_is_trailing
 
 end LispModel.Props.C16
